@@ -117,3 +117,56 @@ fn k_dep_huge_chunk_wraps() {
     }
     assert!(delivered == 3, "C15: with a chunk size of 2^63 the source delivers elements twice (position counter of the dependency wraps)");
 }
+
+// ---- T3 conformance (bounded): the REAL orx-priority-queue BinaryHeap behaves like the min-queue specification used
+// by the Verus unit `merge` (external_body specs): pop_node returns a node with a minimal key and removes it,
+// push_then_pop(n, k) inserts and pops a minimal entry; None iff empty. Three entries, symbolic distinct keys.
+use orx_priority_queue::{BinaryHeap, PriorityQueue};
+
+fn heap3(k: [u8; 3]) -> BinaryHeap<usize, u8> {
+    let mut q = BinaryHeap::with_capacity(3);
+    q.push(0usize, k[0]);
+    q.push(1usize, k[1]);
+    q.push(2usize, k[2]);
+    q
+}
+
+#[kani::proof]
+#[kani::unwind(6)]
+fn k_dep_heap_pop_order() {
+    let k = any3();
+    kani::assume(k[0] != k[1] && k[0] != k[2] && k[1] != k[2]);
+    let mut q = heap3(k);
+    let a = q.pop_node();
+    let b = q.pop_node();
+    let c = q.pop_node();
+    let d = q.pop_node();
+    match (a, b, c) {
+        (Some(a), Some(b), Some(c)) => {
+            assert!(a < 3 && b < 3 && c < 3 && a != b && a != c && b != c, "T3: every pushed node is popped exactly once");
+            assert!(k[a] < k[b] && k[b] < k[c], "T3: pop_node returns nodes in increasing key order");
+        }
+        _ => assert!(false, "T3: three entries must yield three pops"),
+    }
+    assert!(d.is_none(), "T3: pop_node on an empty queue returns None");
+}
+
+#[kani::proof]
+#[kani::unwind(6)]
+fn k_dep_heap_push_then_pop() {
+    let k = any3();
+    let x: u8 = kani::any();
+    kani::assume(k[0] != k[1] && x != k[0] && x != k[1]);
+    let mut q = BinaryHeap::with_capacity(3);
+    q.push(0usize, k[0]);
+    q.push(1usize, k[1]);
+    let (n, key) = q.push_then_pop(2usize, x);
+    let min = if k[0] < k[1] { k[0] } else { k[1] };
+    let min = if x < min { x } else { min };
+    assert!(key == min, "T3: push_then_pop returns a minimal key of the queue plus the new entry");
+    assert!((n == 2 && key == x) || (n < 2 && key == k[n]), "T3: push_then_pop returns the node that carries the returned key");
+    // the two remaining entries come out in order
+    let a = q.pop_node();
+    let b = q.pop_node();
+    assert!(a.is_some() && b.is_some() && q.pop_node().is_none(), "T3: two entries remain after push_then_pop");
+}
